@@ -265,8 +265,29 @@ class LogWorkPostStep(_HookBase):
             for k in P.work_counters:
                 P.work_counters[k].niter = mk.int(f'{n}.{k}_at_pre_step')
         st.more = {k: mk.int(f'more_{k}') for k in ('rhs', 'newton')}
+        st.earlier = {k: mk.int(f'earlier_{k}') for k in ('rhs', 'newton')}
+        st.between = {k: mk.int(f'between_{k}') for k in ('rhs', 'newton')}
+        st.earlier_time = mk.real('S.time_of_the_earlier_step')
+
+    def instances(self, tier):
+        return [dict(history=h) for h in ('fresh hook', 'earlier step of the same slot', 'earlier run and work outside any step')]
 
     def prime(self, st):
+        if st.inst['history'] != 'fresh hook':
+            # the hook object has seen a complete step of the SAME slot before (an earlier block, or an earlier run() of the same controller)
+            t_now = st.L.status.time
+            st.L.status.time = st.earlier_time
+            st.h.pre_step(st.S, 0)
+            for k, c in st.S.levels[0].prob.work_counters.items():
+                c.niter = c.niter + st.earlier[k]
+            st.h.post_step(st.S, 0)
+            st.L.status.time = t_now
+        if st.inst['history'] == 'earlier run and work outside any step':
+            # evaluations made between two runs (user code, u_exact, error hooks ...) belong to no step
+            st.h.post_run(st.S, 0)
+            for k, c in st.S.levels[0].prob.work_counters.items():
+                c.niter = c.niter + st.between[k]
+            st.h.pre_run(st.S, 0)
         st.h.pre_step(st.T, 0)
         st.h.pre_step(st.S, 0)
         # work happens between pre_step and post_step; the hook also sees callbacks of the other step in between
@@ -595,6 +616,78 @@ class LogLocalError(_ErrBase):
         yield 'canary:no_reference_call', len(st.exact_calls) == 0
 
 
+class LogGlobalErrorPostRun(_ErrBase):
+    """LogGlobalErrorPostRun: post_step remembers the END time and the restart count of the step whose solution was stored; between that callback and
+    post_run the convergence controllers change the step size and reset the restart counter (arbitrary new values here); post_run on the LAST step then
+    records e_global_post_run / e_global_rel_post_run keyed by the REMEMBERED end time and restart count (the key under which the solution of that step
+    is filed), value = norm of (end value - reference solution at the remembered time); other steps / levels record nothing"""
+
+    name = 'LogGlobalErrorPostRun.post_step + post_run'
+    target = (HK + 'log_errors.py', 'LogGlobalErrorPostRun.post_run')
+    callback = 'post_run'
+
+    def instances(self, tier):
+        return [dict(cls='LogGlobalErrorPostRun', cb='post_run', last=True, level=0), dict(cls='LogGlobalErrorPostRun', cb='post_run', last=False, level=0),
+                dict(cls='LogGlobalErrorPostRun', cb='post_run', last=True, level=1)]
+
+    def build(self, inst, mk):
+        st = _ErrBase.build(self, inst, mk)
+        st.call = lambda: st.h.post_run(st.S, inst['level'])
+        return st
+
+    def prime(self, st):
+        S, T, L, mk = st.S, st.T, st.L, st.mk
+        S.status.last, T.status.last = st.inst['last'], False
+        st.h.pre_run(S, 0)
+        st.h.pre_step(T, 0)
+        st.h.pre_step(S, 0)
+        st.h.post_step(T, 0)
+        st.h.post_step(S, 0)  # the last step of the block reports last
+        st.t_end, st.restarts = L.time + L.dt, S.status.restarts_in_a_row
+        # prepare_next_block of the convergence controllers: new step size, restart counter reset / changed
+        L.params.dt = mk.real('dt_after_the_last_step')
+        S.status.restarts_in_a_row = mk.int('restarts_after_the_last_step')
+        T.levels[0].params.dt = mk.real('T.dt_after_the_last_step')
+        st.h.post_run(T, 0) if not T.status.last else None
+
+    def extra_setup(self, st, mk):
+        _ErrBase.extra_setup(self, st, mk)
+        st.mk = mk
+
+    def post(self, st, old, result, exc):
+        S, L = st.S, st.L
+        yield 'returns_normally', exc is None
+        if exc is not None:
+            return
+        by = self.by_type(st)
+        for junk in ('_recomputed', 'niter', 'residual_post_step', 'residual_post_iteration', 'timing_run', 'timing_setup'):
+            by.pop(junk, None)
+        if not (st.inst['last'] and st.inst['level'] == 0):
+            yield 'only_the_last_step_on_level_0_records', not any(t.startswith('e_global') for t in by)
+            return
+        yield 'record_types', {t for t in by if t.startswith('e_global')} == {'e_global_post_run', 'e_global_rel_post_run'} and all(len(v) == 1 for t, v in by.items() if t.startswith('e_global'))
+        if {t for t in by if t.startswith('e_global')} != {'e_global_post_run', 'e_global_rel_post_run'}:
+            return
+        yield 'reference_solution_asked_at_the_remembered_end_time', len(st.exact_calls) == 1 and bool(seq(st.exact_calls[0]['t'], st.t_end)) is True and st.exact_calls[0]['u_init'] is None
+        if len(st.exact_calls) != 1:
+            return
+        ref = st.exact_calls[0]['out']
+        for typ, val in (('e_global_post_run', abs(L.uend - ref)), ('e_global_rel_post_run', abs(L.uend - ref) / abs(ref))):
+            k, v = by[typ][0]
+            yield f'{typ}:process_is_the_steps_slot', k.process == S.status.slot
+            yield f'{typ}:time_is_the_end_time_remembered_at_post_step', seq(k.time, st.t_end)
+            yield f'{typ}:level', k.level == 0
+            yield f'{typ}:restart_count_is_the_one_remembered_at_post_step', seq(k.num_restarts, st.restarts)
+            yield f'{typ}:value', seq(v, val)
+
+    def canary(self, st, old, result, exc):
+        by = self.by_type(st)
+        if 'e_global_post_run' in by:
+            yield 'canary:keyed_with_the_new_step_size', seq(by['e_global_post_run'][0][0].time, st.L.time + st.L.dt)
+        else:
+            yield 'canary:records_something', any(t.startswith('e_global') for t in by)
+
+
 class AddHook(Contract):
     """Controller.add_hook: a hook class is instantiated and appended unless an instance of EXACTLY that class is registered already
     (a registered subclass or superclass instance is a different hook and does not suppress it); the registered hooks are otherwise untouched"""
@@ -646,7 +739,7 @@ class AddHook(Contract):
         yield 'canary:never_adds', len(st.c.hooks) == len(st.before) and st.inst['present'] not in ('same', 'subclass_and_same')
 
 
-CONTRACTS = [AddHook, LogGlobalError, LogLocalError, HooksBase, DefaultPostStep, DefaultPostIteration, LogRestartsPostStep, LogStepSizePostStep, LogIterationsPostStep,
+CONTRACTS = [AddHook, LogGlobalError, LogLocalError, LogGlobalErrorPostRun, HooksBase, DefaultPostStep, DefaultPostIteration, LogRestartsPostStep, LogStepSizePostStep, LogIterationsPostStep,
              LogSolutionPostStep, LogEmbeddedErrorPostStep, LogWorkPostStep, ReturnStats]
 EXTRAS = [bounded_filter_sort]
 UNDECIDED = ['uniqueness of keys across accepted steps follows from C06 (strictly increasing start times) and C09 (restart counter): composition not machine-checked',
